@@ -48,7 +48,7 @@ theorem all_hasDepth {c : Dag} {P : Paths} (g : Good c P) (hpl : AllPlain c) :
     have hb := regDepth_le_length (L.map (·.2)) r
     have hlt := hS.length_lt g hl
     rw [List.length_map] at hb
-    push_cast; omega
+    omega
   | op i =>
     obtain ⟨o, ho⟩ := mem_nodeIds.mp hn
     have hmem := hS.mem_of_node ho
@@ -66,7 +66,7 @@ theorem all_hasDepth {c : Dag} {P : Paths} (g : Good c P) (hpl : AllPlain c) :
     have hlen : L.length = pre.length + (suf.length + 1) := by rw [hL]; simp
     rw [List.length_map] at hb
     simp only at hb ⊢
-    push_cast; omega
+    omega
 
 theorem hasDepth_lt_of_edge {c : Dag} (hsrc : ∀ x b, isInputNode c b → ¬ c.E x b) {u v : NodeId} (hE : c.E u v)
     {du dv : Int} (hu : HasDepth c u du) (hv : HasDepth c v dv) : du + 1 ≤ dv := by
